@@ -19,6 +19,52 @@
 #include "QSopt_ex.h"
 #include "logging-private.h"
 
+/* ---- output of the harness itself goes to qsx_out, so that file descriptors 1 and 2 can be
+ * captured separately (C20: the library must not write to them once a log handler is installed).
+ * With env QSX_CAPTURE=<prefix> fd 1 and fd 2 are redirected to <prefix>.1 / <prefix>.2 and the
+ * harness prints `CAP <bytes on fd1> <bytes on fd2>` at every CASE marker. */
+static FILE *qsx_out = NULL;
+static int qsx_cap_on = 0;
+static char qsx_cap1[1024], qsx_cap2[1024];
+#include <sys/stat.h>
+#include <fcntl.h>
+static void qsx_capture_init (void)
+{
+	const char *pre = getenv ("QSX_CAPTURE");
+	int fd = dup (1);
+	qsx_out = fdopen (fd, "w");
+	if (pre && *pre)
+	{
+		int f1, f2;
+		snprintf (qsx_cap1, sizeof qsx_cap1, "%s.1", pre);
+		snprintf (qsx_cap2, sizeof qsx_cap2, "%s.2", pre);
+		f1 = open (qsx_cap1, O_WRONLY | O_CREAT | O_TRUNC | O_APPEND, 0644);
+		f2 = open (qsx_cap2, O_WRONLY | O_CREAT | O_TRUNC | O_APPEND, 0644);
+		if (f1 >= 0 && f2 >= 0)
+		{
+			fflush (NULL);
+			dup2 (f1, 1); dup2 (f2, 2);
+			close (f1); close (f2);
+			qsx_cap_on = 1;
+		}
+	}
+}
+static void qsx_capture_report (void)
+{
+	struct stat a, b;
+	if (!qsx_cap_on) return;
+	fflush (NULL);
+	if (stat (qsx_cap1, &a)) a.st_size = -1;
+	if (stat (qsx_cap2, &b)) b.st_size = -1;
+	fprintf (qsx_out, "CAP %ld %ld\n", (long) a.st_size, (long) b.st_size);
+}
+/* from here on the harness never touches the real standard output */
+#undef stdout
+#define stdout qsx_out
+#define printf(...) fprintf (qsx_out, __VA_ARGS__)
+#define putchar(c) fputc ((c), qsx_out)
+#define puts(s) (fputs ((s), qsx_out), fputc ('\n', qsx_out))
+
 #define QSX_MAXTOK 200000
 static char *qsx_line = NULL;
 static size_t qsx_line_cap = 0;
